@@ -147,7 +147,7 @@ def job_array_indexing():
                 i = sl * 6 * nty + t * 6 + yi
                 conds.append(eq_goal(Q.of(rf[i]), S[yi] * rf0[i]))
     res.append(discharge(Obligation('cf_redimensionalize_radial_functions on 3 slices x 2 solution types: element [slice, type, y_i] is multiplied by the factor of y_i (layout slice-major, 6 per type)',
-                                    z3.And(*conds), pos, replay=rp_bc, key='indexing:radial-functions')))
+                                    z3.And(*conds), pos, replay=replay.api_or_witness([ND, SOLVER], rp_bc, 'element-wise scaling of the radial functions differs'), key='indexing:radial-functions')))
     res.append(reach_twin('array indexing', A))
     return {'results': res, 'encoded': loader.ENCODED, 'axioms': CTX.axiom_notes, 'label': 'array indexing'}
 
@@ -249,7 +249,7 @@ def job_bc_and_love(l):
                     # scaling: y2 ~ S[1], y4 ~ S[3], y6 ~ S[5]
                     conds.append(eq_goal(Q.of(x), S[(1, 3, 5)[j]] * Q.of(bn[3 * t + j])))
         res.append(discharge(Obligation('l=%d solve_for=%r: boundary vectors are (y2,y4,y6) = tidal (0,0,(2l+1)/R) / loading (-(2l+1)rho_bulk/3,0,(2l+1)/R) / free (0,0,0) per slot, and commute with the unit scaling' % (l, solve_for),
-                                        z3.And(*conds), pos, replay=rp_bc, key='bc:%r' % (solve_for,))))
+                                        z3.And(*conds), pos, replay=replay.api_or_witness([SOLVER], rp_bc, 'boundary vector construction wrong for solve_for=%r' % (solve_for,)), key='bc:%r' % (solve_for,))))
     # Love extraction commutes with the scaling
     love, _ = loader.load_pyx('TidalPy/RadialSolver/love.pyx', ['find_love_cf'], {})
     y = [Q.sym('yy%d' % i) for i in range(6)]
